@@ -109,6 +109,19 @@ def ts_from_spec(s):
 
 def gen_dt(w, naive_ok=True):
     r = w.random()
+    if r < 0.04:
+        # the very ends of the representable range: the wall clock fits, the
+        # UTC instant (or the shifted wall clock) may not
+        if w.random() < 0.5:
+            f = [1, 1, 1, w.randrange(0, 14), w.randrange(60), w.randrange(60),
+                 w.choice([0, 1, 999999])]
+            off = w.choice([60, 180, 330, 600, 840, 1439, -60, 0])
+        else:
+            f = [9999, 12, 31, w.randrange(10, 24), w.randrange(60),
+                 w.randrange(60), w.choice([0, 999999])]
+            off = w.choice([-60, -120, -330, -600, -720, -1439, 60, 0])
+        return {'f': f, 'off': off, 'tz': w.choice(['py', 'dateutil'])}
+    r = w.random()
     if r < 0.1:
         y = w.choice([1, 2, 9998, 9999])
     elif r < 0.3:
@@ -371,6 +384,8 @@ def check_clause(case, out):
     o_us = td_us(o)
     clause = case['clause']
     P = []
+    edge = [False]
+    REFUSALS = (OverflowError, ValueError, OSError)
 
     def exc(name):
         return isinstance(out.get(name), Exception)
@@ -382,6 +397,17 @@ def check_clause(case, out):
         ok = True
         for n in names:
             if exc(n):
+                if edge[0] and isinstance(out[n], REFUSALS):
+                    # at the ends of the representable range the library may
+                    # refuse; a value it does return must still be right
+                    ok = False
+                    continue
+                if edge[0] and out[n].__class__.__name__ in (
+                        'NoMatchingFunctionException',
+                        'NoMatchingMethodException', 'TypeError'):
+                    # a step that consumes the result of a refused step
+                    ok = False
+                    continue
                 bad('unexpected-exception', step=n,
                     error=type(out[n]).__name__ + ': ' + str(out[n])[:120])
                 ok = False
@@ -390,7 +416,7 @@ def check_clause(case, out):
     if clause == 'ts_roundtrip':
         inst = int(round(s * US))
         if not in_range(inst, o_us) or not in_range(inst, 0):
-            return 'trivial', P
+            edge[0] = True
         if need('r', 'q', 'ro', 'q0', 'ro0'):
             if td_us(out['ro0']) != 0:
                 bad('datetime(s).offset != 0', got=td_us(out['ro0']))
@@ -406,7 +432,7 @@ def check_clause(case, out):
                 bad('datetime(s).timestamp != s', got=out['q0'], expected=s)
     elif clause == 'dt_roundtrip':
         if not in_range(di, doff):
-            return 'trivial', P
+            edge[0] = True
         if need('q', 'do', 'r', 'q2'):
             if not close(out['q'], di / US, di / US):
                 bad('d.timestamp is not the instant of d', got=out['q'],
@@ -422,7 +448,7 @@ def check_clause(case, out):
                     expected=di)
     elif clause == 'utc':
         if not in_range(di, doff):
-            return 'trivial', P
+            edge[0] = True
         if need('u', 'uo', 'uq', 'q', 'do', 'do2'):
             if td_us(out['do']) != doff or td_us(out['do2']) != doff:
                 bad('d.offset wrong', got=[td_us(out['do']),
@@ -438,7 +464,7 @@ def check_clause(case, out):
                     got=[out['uq'], out['q']], expected=di / US)
     elif clause in ('addsub', 'naive') and clause == 'addsub':
         if not in_range(di, doff) or not in_range(di + t_us, doff):
-            return 'trivial', P
+            edge[0] = True
         if need('r1', 'r2', 'r3', 'b'):
             r1i, r1off = model_of(out['r1'])
             if r1i != di + t_us:
@@ -454,7 +480,7 @@ def check_clause(case, out):
                     expected=[True, True, True, False])
     elif clause == 'compare':
         if not in_range(di, doff) or not in_range(d2i, d2off):
-            return 'trivial', P
+            edge[0] = True
         if need('c1', 'c2', 'df', 'c3'):
             exp = [di < d2i, di <= d2i, di > d2i, di >= d2i]
             if list(out['c1']) != exp:
@@ -505,7 +531,7 @@ def check_clause(case, out):
         w = wall_us(datetime.datetime(*f))
         inst = w - WALL_EPOCH - o_us
         if not in_range(inst, o_us):
-            return 'trivial', P
+            edge[0] = True
         if need('r', 'ro', 'q', 'u'):
             ri, roff = model_of(out['r'])
             if ri != inst or roff != o_us or td_us(out['ro']) != o_us:
@@ -521,7 +547,7 @@ def check_clause(case, out):
     elif clause == 'naive':
         if not in_range(di, 0) or not in_range(d2i, d2off) or \
                 not in_range(di + t_us, 0):
-            return 'trivial', P
+            edge[0] = True
         if need('p', 'c', 'r1', 'r3'):
             p = list(out['p'])
             if td_us(p[0]) != 0:
@@ -545,7 +571,7 @@ def check_clause(case, out):
             if r1i != di + t_us or td_us(out['r3']) != t_us:
                 bad('naive host datetime: arithmetic', got=[r1i, td_us(out['r3'])],
                     expected=[di + t_us, t_us])
-    return 'checked', P
+    return ('edge' if edge[0] else 'checked'), P
 
 
 def execute(case, stats):
